@@ -1105,7 +1105,7 @@ func c07RefUnwriteEmpty(b []byte) ([]byte, bool) {
 func (c *Ctx) c07Trims(or *Oracle, useOracle bool) {
 	alphabet := []byte{'"', '\\', ' ', '\n', ',', ':', 'a', 'l', '{', '}'}
 	var inputs [][]byte
-	maxLen := c.N(5, 6)
+	maxLen := c.N(4, 6)
 	var rec func(cur []byte)
 	rec = func(cur []byte) {
 		inputs = append(inputs, append([]byte{}, cur...))
@@ -1380,12 +1380,12 @@ func runC07(c *Ctx) {
 				r := rand.New(rand.NewPCG(c.Seed, 0xC07<<32+uint64(jb.lo)))
 				for size := jb.lo; size < jb.hi; {
 					for which := 0; which < c07NumShapes; which++ {
-						if !c.Thorough() && which != size%c07NumShapes && r.IntN(3) != 0 {
+						if !c.Thorough() && which != size%c07NumShapes && r.IntN(4) != 0 {
 							continue // quick: every size gets its "own" shape plus a random third of the others
 						}
 						sh := c07Shapes(r, size, which)
 						for oi, o := range opts {
-							if !c.Thorough() && oi != (size/3)%len(opts) && r.IntN(4) != 0 {
+							if !c.Thorough() && oi != (size/3)%len(opts) && r.IntN(5) != 0 {
 								continue
 							}
 							c.c07Marshal(l, r, sh, o, c.N(3, 8))
